@@ -218,7 +218,7 @@ func (c08) Describe() CheckInfo {
 		Level: "fault_enumeration",
 		Rule: "storage/stream faults on the two input channels, enumerated over the working tree's corpus (testdata txtar cases, examples/*.patch, testdata/patch/*.patch) plus the generated templates: " +
 			"(trunc-patch) EVERY prefix P[:k], k=0..|P|, of every patch — exhaustive in both tiers; (trunc-target) every prefix of every corpus input — exhaustive in both tiers; (flip-patch) single-byte substitution from a 32-symbol alphabet of structurally meaningful bytes at every offset (thorough; seeded sample in quick); (flip-target) seeded sample; " +
-			"(cross) every intact patch against every corpus input — exhaustive in both tiers; (read-error) an EIO injected into the patch stream after k bytes, which must yield exit != 0 and no modified file; (ill-typed) a fixed family of well-formed but ill-typed or oddly shaped patches and targets; (op-fault) for sampled corpus worlds every operation of an in-place run is failed once (file writes also persistently): no crash, no hang. Every variant runs through the real main() (patch via -p file or stdin with short reads) and through patch.Parse + File.Apply. " +
+			"(cross) every intact patch against every corpus input — exhaustive in both tiers; (read-error) an EIO injected into the patch stream after k bytes, which must yield exit != 0 and no modified file; (ill-typed) a fixed family of well-formed but ill-typed or oddly shaped patches and targets; (op-fault) for sampled corpus worlds every operation of an in-place run is failed once (file writes also persistently): no crash, no hang. (ill-cross) '-' sides x '+' sides of different syntactic kinds, and every list-bearing construct x forms of the elision x '+' sides that keep only the elision against targets where '...' stands for nothing; (ill-typed) includes every token of a small alphabet inserted at every token boundary of a metavariables section. Every variant runs through the real main() (patch via -p file or stdin with short reads) and through patch.Parse + File.Apply. " +
 			"A case must end within the step budget with exit 0, or exit != 0 and a diagnostic; never a panic, fatal error, no-progress or memory-limit death. distinct = distinct (family, patch or input, outcome class) tuples",
 		Assumptions: []string{
 			"termination is decided by logical steps (yield points executed), not seconds: the budget is 6e7 steps, four to five orders of magnitude above fault-free runs; loops in un-instrumented library code would be reported as inconclusive (exit 2), never as a violation",
